@@ -4,6 +4,7 @@ import (
 	"fmt"
 	"math"
 
+	"github.com/sahandsafizadeh/qeep/component/initializers"
 	"github.com/sahandsafizadeh/qeep/component/layers"
 	"github.com/sahandsafizadeh/qeep/component/optimizers"
 	"github.com/sahandsafizadeh/qeep/tensor"
@@ -105,10 +106,21 @@ func c11History(k *fw.K, quick bool) {
 		defer k.Sample()
 	}
 
+	sharedFull := m.Variant == "plain" && r.Intn(3) == 0
+	if sharedFull {
+		for i := range w0.Data {
+			w0.Data[i], b0.Data[i] = w0.Data[0], w0.Data[0]
+		}
+		k.Count("histories_with_one_Full_initializer_for_both_parameters", 1)
+	}
 	var fc *layers.FC
 	var err error
 	if p := call(func() {
 		conf := &layers.FCConfig{Inputs: m.D, Outputs: m.O, Initializers: map[string]layers.Initializer{"Weight": fixedInit{w0}, "Bias": fixedInit{b0}}}
+		if sharedFull { // ONE library initializer instance serves both parameters (same shape [Outputs])
+			full := initializers.NewFull(&initializers.FullConfig{Value: w0.Data[0]})
+			conf.Initializers = map[string]layers.Initializer{"Weight": full, "Bias": full}
+		}
 		fc, err = layers.NewFC(conf)
 		conf.Inputs, conf.Outputs = 99, 99 // the caller's config and its map are overwritten after construction
 		conf.Initializers["Weight"], conf.Initializers["Bias"] = nil, nil
@@ -116,6 +128,13 @@ func c11History(k *fw.K, quick bool) {
 		k.Failf("NewFC: panic=%v err=%v", p, err)
 		return
 	}
+	fc, how, originalUntouched := fcVariant(k, fc)
+	k.Count("histories_on_a_layer_obtained_as_"+how, 1)
+	defer func() {
+		if msg := originalUntouched(); msg != "" && !k.Failed() {
+			k.Failf("%s", msg)
+		}
+	}()
 	var act interface {
 		Forward(...tensor.Tensor) (tensor.Tensor, error)
 	}
